@@ -335,18 +335,23 @@ structure Frame where
   rows : Tbl Rec
   deriving Repr
 
-/-- `pd.Series(default, dtype)` for one declared field. An empty-list default makes an *empty* Series, which
-the one-row default frame shows as NaN (the keysounds quirk, D08) -/
-def defaultCell : Cell → Cell
+/-- the row `cls.empty(n)` repeats: every declared field with its default; a list-valued default is one fresh
+list per row (the repair of D08) -/
+def Schema.defaultRow (s : Schema) : Rec := s.declared.map fun d => (d.1, d.2.2)
+
+/-- before the repair of D08: `pd.Series([], dtype=object)` is an *empty* Series, which the one-row default
+frame showed as NaN -/
+def defaultCellOld : Cell → Cell
   | .strs [] => .nan
   | c => c
 
-def Schema.defaultRow (s : Schema) : Rec := s.declared.map fun d => (d.1, defaultCell d.2.2)
+def Schema.defaultRowOld (s : Schema) : Rec := s.declared.map fun d => (d.1, defaultCellOld d.2.2)
 
 /-- `cls([])`: `pd.DataFrame(cls._default())[:0]` -/
 def emptyFrame (s : Schema) : Frame := ⟨s.declaredNames, []⟩
 
-/-- `cls.empty(n)`: `df.loc[df.index.repeat(n)].reset_index(drop=True)` over the one-row default frame -/
+/-- `cls.empty(n)`: `df.loc[df.index.repeat(n)].reset_index(drop=True)` over the one-row default frame, list-valued
+defaults then set to one fresh list per row -/
 def emptyF (s : Schema) (n : Nat) : Frame := ⟨s.declaredNames, relabel (List.replicate n s.defaultRow)⟩
 
 /-- `cls.empty(n)` as it was before the repair of D09: `reset_index()` turns the old labels into a column -/
